@@ -2,29 +2,60 @@ import os, re
 
 THEOREMS = {
     "Dawgs.Props.C10": [
-        "Dawgs.C10.Props.norm_preserves_eval", "Dawgs.C10.Props.norm_idempotent",
-        "Dawgs.C10.Props.parse_emit_canonical", "Dawgs.C10.Props.emitFixed_canonical",
-        "Dawgs.C10.Props.builder_roundtrip_fixed", "Dawgs.C10.Props.builder_roundtrip_partial",
-        "Dawgs.C10.Props.refute_and_over_xor", "Dawgs.C10.Props.and_over_xor_changes_meaning",
-        "Dawgs.C10.Props.refute_integral_float", "Dawgs.C10.Props.refute_all_of_kinds",
-        "Dawgs.C10.Props.all_of_kinds_changes_meaning", "Dawgs.C10.Props.builder_roundtrip_refuted",
-        "Dawgs.C10.Props.c10_full_refuted", "Dawgs.C10.Props.refute_not_over_and", "Dawgs.C10.Props.refute_not_not",
-        "Dawgs.C10.Props.refute_and_over_bare_or", "Dawgs.C10.Props.valid_needed_empty_list",
-        "Dawgs.C10.Props.valid_needed_min_int64", "Dawgs.C10.Props.operand_roundtrip_fixed",
-        "Dawgs.C10.Props.literal_roundtrip", "Dawgs.C10.Props.literal_roundtrip_current",
-        "Dawgs.C10.Props.literal_roundtrip_null", "Dawgs.C10.Props.literal_roundtrip_bool",
-        "Dawgs.C10.Props.literal_roundtrip_int", "Dawgs.C10.Props.literal_roundtrip_float_fixed",
-        "Dawgs.C10.Props.literal_roundtrip_string_token", "Dawgs.C10.Props.literal_roundtrip_list",
-        "Dawgs.C10.Props.float_integral_becomes_int", "Dawgs.C10.Props.literal_roundtrip_string",
-        "Dawgs.C10.Props.prepare_preserves_eval", "Dawgs.C10.Props.hoist_from_or_changes_meaning",
-        "Dawgs.C10.Props.hoist_from_xor_changes_meaning", "Dawgs.C10.Props.prepare_keeps_negated_kind_matcher",
-        "Dawgs.C10.Props.hoist_from_negation_changes_meaning", "Dawgs.C10.Props.two_hoisted_conjuncts_change_meaning",
-        "Dawgs.C10.Props.hoist_all_of_changes_meaning", "Dawgs.C10.Props.string_negation_guard_eval",
+        "Dawgs.C10.Props.norm_preserves_eval",
+        "Dawgs.C10.Props.norm_idempotent",
+        "Dawgs.C10.Props.parse_emit_canonical",
+        "Dawgs.C10.Props.emit_canonical",
+        "Dawgs.C10.Props.builder_roundtrip",
+        "Dawgs.C10.Props.c10_full_except",
+        "Dawgs.C10.Props.c10_full_fails_only_there",
+        "Dawgs.C10.Props.c10_full_refuted",
+        "Dawgs.C10.Props.valid_needed_empty_list",
+        "Dawgs.C10.Props.valid_needed_min_int64",
+        "Dawgs.C10.Props.builder_roundtrip_old_partial",
+        "Dawgs.C10.Props.refute_and_over_xor_old",
+        "Dawgs.C10.Props.and_over_xor_changes_meaning_old",
+        "Dawgs.C10.Props.refute_integral_float_old",
+        "Dawgs.C10.Props.refute_all_of_kinds_old",
+        "Dawgs.C10.Props.all_of_kinds_changes_meaning_old",
+        "Dawgs.C10.Props.builder_roundtrip_old_refuted",
+        "Dawgs.C10.Props.c10_full_old_refuted",
+        "Dawgs.C10.Props.refute_not_over_and_old",
+        "Dawgs.C10.Props.refute_not_not_old",
+        "Dawgs.C10.Props.refute_and_over_bare_or_old",
+        "Dawgs.C10.Props.operand_roundtrip_fixed",
+        "Dawgs.C10.Props.literal_roundtrip",
+        "Dawgs.C10.Props.literal_roundtrip_old",
+        "Dawgs.C10.Props.literal_roundtrip_null",
+        "Dawgs.C10.Props.literal_roundtrip_bool",
+        "Dawgs.C10.Props.literal_roundtrip_int",
+        "Dawgs.C10.Props.literal_roundtrip_float",
+        "Dawgs.C10.Props.literal_roundtrip_string_token",
+        "Dawgs.C10.Props.literal_roundtrip_list",
+        "Dawgs.C10.Props.float_integral_becomes_int_old",
+        "Dawgs.C10.Props.literal_roundtrip_string",
+        "Dawgs.C10.Props.prepare_preserves_eval_fix7",
+        "Dawgs.C10.Props.prepare_hoists_at_most_one_fix7",
+        "Dawgs.C10.Props.prepare_preserves_eval",
+        "Dawgs.C10.Props.hoist_from_or_changes_meaning",
+        "Dawgs.C10.Props.hoist_from_xor_changes_meaning",
+        "Dawgs.C10.Props.prepare_keeps_negated_kind_matcher",
+        "Dawgs.C10.Props.hoist_from_negation_changes_meaning",
+        "Dawgs.C10.Props.two_hoisted_conjuncts_change_meaning",
+        "Dawgs.C10.Props.hoist_all_of_changes_meaning",
+        "Dawgs.C10.Props.string_negation_guard_eval",
+        "Dawgs.C10.Props.query_parse_emit",
+        "Dawgs.C10.Props.query_roundtrip",
+        "Dawgs.C10.Props.prepare_parameters_preserved",
+        "Dawgs.C10.Props.lift_numbering",
     ],
 }
 
-# VERIF_C10_MODE=fixed: the repository under test carries hooks/C10-fix.patch; the Lean side answers with emitFixed
-MODE = "current" if os.environ.get("VERIF_C10_MODE") == "current" else "fixed"   # hooks/C10-fix-{1,2,3} are committed in /repo (4086218 04efdd9 7bfe5dc)
+# VERIF_C10_MODE selects what the Lean side answers for:
+#   live (default)  format.go and QueryBuilder.Prepare as they are in /repo
+#   fix7            Prepare with the proposal hooks/C10-fix7 applied to the tree under test (not taken by the maintainers' proxy)
+#   current         format.go before the three emitter fixes (4086218, 04efdd9, 7bfe5dc)
+MODE = {"fix7": "fix7", "current": "current"}.get(os.environ.get("VERIF_C10_MODE", ""), "fixed")
 
 
 def fields(line):
@@ -47,9 +78,10 @@ def model_input(op, impl):
         if LIST_ERROR in impl and f.get("A", "none") != "none":
             return "e %s none none %s none" % (MODE, f["A"])
         return "# " + impl[:60]
-    if f.get("M", "none") == "none" and f.get("A", "none") == "none":
-        return "# no where clause"
-    return "e %s %s %s %s %s" % (MODE, f.get("M", "none"), f.get("R", "none"), f.get("A", "none"), f.get("RK", "none"))
+    if f.get("M", "none") == "none" and f.get("A", "none") == "none" and f.get("gqm", "unmodelled") == "unmodelled":
+        return "# no where clause, query outside the clause-level algebra"
+    return "e %s %s %s %s %s %s %s %s" % (MODE, f.get("M", "none"), f.get("R", "none"), f.get("A", "none"), f.get("RK", "none"),
+                                          f.get("QM", "none"), f.get("QR", "none"), f.get("QA", "none"))
 
 
 def blank_params(term):
@@ -63,6 +95,26 @@ def prep_view_impl(f, error=False):
         return ""
     rk = f.get("RK", "none")
     return " | prep=%s/%s" % ("(ks)" if rk == "none" else rk, blank_params(f.get("M", "none")))
+
+
+def query_view_impl(f):
+    if MODE == "current" or f.get("gqm", "unmodelled") == "unmodelled" or "QM" not in f:
+        return ""
+    # tokens of the whole text, normal form of the rendered model, of the re-parse (twice: Lean's parse must predict it),
+    # and what Prepare made of the applied query
+    out = " | qtoks=%s | qnm=%s | qnr=%s | qreparse=%s" % (f.get("qtoks"), f.get("gqm"), f.get("gqr"), f.get("gqr") if f.get("gqr") != "unmodelled" else "none")
+    if f.get("QA", "none") != "none":
+        out += " | qprep=%s" % f.get("QM")
+    return out
+
+
+def query_view_model(f):
+    if "qtoks" not in f:
+        return ""
+    out = " | qtoks=%s | qnm=%s | qnr=%s | qreparse=%s" % (f.get("qtoks"), f.get("qnm"), f.get("qnr"), f.get("qparse"))
+    if "qprep" in f:
+        out += " | qprep=%s" % f.get("qprep")
+    return out
 
 
 def prep_view_model(f):
@@ -81,12 +133,16 @@ def impl_view(impl):
         return "#"
     if f.get("M", "none") == "none":
         if f.get("A", "none") == "none":
-            return "#"
-        return "not-in-algebra" if "(unmodelled " in f["A"] else "nowhere" + prep_view_impl(f)
+            return ("nowhere" + query_view_impl(f)) if query_view_impl(f) else "#"
+        if "(unmodelled " in f["A"]:
+            return "not-in-algebra"
+        return "nowhere" + prep_view_impl(f) + query_view_impl(f)
     if f.get("gm") == "unmodelled":
         return "not-in-algebra"
-    # the Lean side must (1) write the same tokens, (2) compute the same normal forms, (3) predict the re-parse
-    return "toks=%s | nm=%s | nr=%s | reparse=%s" % (f.get("toks"), f.get("gm"), f.get("gr"), f.get("gr") if f.get("gr") != "unmodelled" else "none") + prep_view_impl(f)
+    # the Lean side must (1) write the same tokens, (2) compute the same normal forms, (3) predict the re-parse,
+    # (4) predict Prepare, (5) the same four for the whole query
+    return "toks=%s | nm=%s | nr=%s | reparse=%s" % (f.get("toks"), f.get("gm"), f.get("gr"), f.get("gr") if f.get("gr") != "unmodelled" else "none") \
+        + prep_view_impl(f) + query_view_impl(f)
 
 
 def model_view(model):
@@ -96,9 +152,9 @@ def model_view(model):
         return "not-in-algebra" if model.startswith("unmodelled(") else model
     f = fields(model)
     if model.startswith("nowhere"):
-        return "nowhere" + prep_view_model(f)
+        return "nowhere" + prep_view_model(f) + query_view_model(f)
     nr = "unmodelled" if "runmodelled" in f else f.get("nr")
-    return "toks=%s | nm=%s | nr=%s | reparse=%s" % (f.get("toks"), f.get("nm"), nr, f.get("parse")) + prep_view_model(f)
+    return "toks=%s | nm=%s | nr=%s | reparse=%s" % (f.get("toks"), f.get("nm"), nr, f.get("parse")) + prep_view_model(f) + query_view_model(f)
 
 
 SHAPE_ORDER = ["empty-list", "int-out-of-range", "not-over-unparenthesised-not", "not-over-unparenthesised-and",
@@ -252,7 +308,7 @@ SPEC = {
     "level": "proof",
     "lean_modules": ["Dawgs.Props.C10"],
     "theorems_by_module": THEOREMS,
-    "gate_modules": ["Dawgs.Model.C10", "Dawgs.Spec.C10", "Dawgs.Proofs.C10", "Dawgs.Props.C10"],
+    "gate_modules": ["Dawgs.Model.C10", "Dawgs.Model.C10Q", "Dawgs.Spec.C10", "Dawgs.Spec.C10Q", "Dawgs.Proofs.C10", "Dawgs.Proofs.C10Q", "Dawgs.Props.C10"],
     "suites": [
         {"name": "c10", "model_suite": "c10", "model_input": model_input, "impl_view": impl_view, "model_view": model_view,
          "judge": judge, "keep_prefix": 1, "thorough_seeds": 2},
@@ -295,8 +351,10 @@ MANIFEST = {
             "plus Not over a bare list and repeated NOT) with valuations showing the meaning changes. norm preserves three-valued evaluation "
             "(norm_preserves_eval). String escaping round-trips for all strings (literal_roundtrip_string). Prepare's hoisting of a relationship kind "
             "matcher onto the MATCH pattern preserves the three-valued meaning when the matcher is the only one hoisted, any-of, and in a purely "
-            "conjunctive un-negated position (prepare_preserves_eval), with separating valuations for OR/XOR/negation/second-matcher/all-of. The tie compares, for every generated term, "
-            "Lean emit with the real text token-wise, Lean norm with the harness normaliser, Lean parse∘emit with the real re-parse, and the Lean model of "
+            "conjunctive un-negated position (prepare_preserves_eval, hypothesis hoistOK), with separating valuations for OR/XOR/negation/second-matcher/all-of "
+            "(known findings); the proposal hooks/C10-fix7 is proved meaning-preserving without that hypothesis (prepare_preserves_eval_fix7). The tie compares, for every generated term, "
+            "Lean emit with the real text token-wise (WHERE expression and whole query), Lean norm with the harness normaliser, Lean parse∘emit with the real "
+            "re-parse, the Lean model of whole-query Prepare (parameter names p0.. in text order, kinds hoisted onto the pattern) with the real one, and the Lean model of "
             "Prepare (kinds on the pattern + rewritten WHERE) with the real Prepare; every criteria value is rendered through two fresh neo4j builders and "
             "query.Builder (texts identical, caller's criteria unchanged).",
     "note": "Known findings are listed in known_findings.json (C10:*). Lexing of tokens other than string literals, ANTLR, and float<->decimal "
